@@ -1317,6 +1317,40 @@ def compose_scope(res, pid, rng, tier):
         if not ok_ or o.get("a.cfg") != cur:
             fails.append({"kind": "command line: several options together differ from the same options one after another",
                           "argv": flags, "together": o.get("a.cfg"), "one_after_another": cur, "steps": steps})
+    # composition through the file entry point: all features at once = one feature after another, each run reading the files the previous
+    # one wrote - also for a line longer than 65536 characters and for a file with a stray NUL a little past 1 KiB
+    import tempfile as _tf5
+    import shutil as _sh5
+    from netconan.anonymize_files import anonymize_files as _af5
+    d5 = _tf5.mkdtemp(prefix="ncverif_")
+    try:
+        table = "".join("! %-30s %-30s %s\n" % ("col%d" % i_, "value   %d" % i_, "x" * 12) for i_ in range(14))
+        files5 = {"long.cfg": "password hunter2 " + "x" * 65503 + " 11.22.33.44 end\nrouter bgp 65001\n",
+                  "nul.cfg": table + "! padding" + " " * (1030 - len(table) - 9) + "\x00\nusername bob password 0 hunter2abc\nrouter bgp 65001\n neighbor 11.22.33.44 remote-as 65001\n",
+                  "plain.cfg": "hostname acme-gw\nusername bob password 0 hunter2abc\n neighbor 11.22.33.45 remote-as 65001\n"}
+        os.makedirs(os.path.join(d5, "in"))
+        for nm_, tx_ in files5.items():
+            open(os.path.join(d5, "in", nm_), "w", newline="").write(tx_)
+        kw_all = dict(salt="cmpf", sensitive_words=["acme"], as_numbers=["65001"])
+        with fa.LogCap():
+            _af5(os.path.join(d5, "in"), os.path.join(d5, "all"), True, True, **kw_all)
+            _af5(os.path.join(d5, "in"), os.path.join(d5, "s1"), True, False, salt="cmpf")
+            _af5(os.path.join(d5, "s1"), os.path.join(d5, "s2"), False, True, salt="cmpf")
+            _af5(os.path.join(d5, "s2"), os.path.join(d5, "s3"), False, False, salt="cmpf", sensitive_words=["acme"])
+            _af5(os.path.join(d5, "s3"), os.path.join(d5, "s4"), False, False, salt="cmpf", as_numbers=["65001"])
+        for nm_ in files5:
+            res.evaluations += 1
+            a_ = open(os.path.join(d5, "all", nm_), newline="").read() if os.path.exists(os.path.join(d5, "all", nm_)) else None
+            b_ = open(os.path.join(d5, "s4", nm_), newline="").read() if os.path.exists(os.path.join(d5, "s4", nm_)) else None
+            if a_ != b_:
+                k_ = next((i_ for i_, (x_, y_) in enumerate(zip(a_ or "", b_ or "")) if x_ != y_), 0)
+                fails.append({"kind": "the multi-feature run differs from the single-feature steps applied one after another (directory runs, each reading what the previous wrote)",
+                              "file": nm_, "file_length": len(files5[nm_]), "first_difference_at": k_, "combined": (a_ or "<none>")[max(0, k_ - 40):k_ + 40],
+                              "chained": (b_ or "<none>")[max(0, k_ - 40):k_ + 40]})
+    except Exception as e:  # noqa
+        fails.append({"kind": "anonymize_io raised", "detail": "file-level composition", "exc": repr(e)[:200]})
+    finally:
+        _sh5.rmtree(d5, ignore_errors=True)
     # the same token as sensitive word and as AS number, every step in an interpreter process of its own (as separate command-line
     # runs are): nothing a step computed is visible to another step except through the text
     tk = rng.choice(["65000", "64999", "4200000001"])
